@@ -59,6 +59,23 @@ SEEDS = [
   {'C19': 'UNDECIDED (exit 2): the changed biscuit_sealed_size calls Biscuit::container() / Token::AlreadySealed, which the capi unit has no contract for; the front end rejects the unit and the check refuses to guess'}),
  ('C19-2', '/tmp/wt_C19/_out/2', 'C19', 'biscuit_block_context called with block_index == block_count (off-by-one guard) so swap_remove panics across the FFI boundary',
   {'C19': 'VIOLATION biscuit-capi::lib::biscuit_block_context::call-pre(vstd:vec.rs)[biscuit.0.context().swap_remove(block_index)]', 'history': 'function was not in unit capi at first (NOT detected); caught after biscuit_block_context was put under contract'}),
+ # ---- round 2 (after units engine / loadb / closures were added) ----
+ ('C03-3', '/scratch/t/r2/C03-1', 'C03', 'a rule with an EMPTY body in an appended (or untrusted third-party) block: the join iterator returns the empty origin for the no-predicate leaf, so the derived fact is trusted by every scope',
+  {'C03': 'NOT detected (exit 0)', 'C04': 'NOT detected (exit 0): the change is inside CombineIt::next / Rule::apply (Box<dyn Iterator> + closures), which enter the engine unit as oracles'}),
+ ('C03-4', '/scratch/t/r2/C03-2', 'C03', 'a fact derived by a trusted rule that is also stated, under another origin, by a later untrusted block, plus a non-monotonic consumer (deny if / reject if / check all)',
+  {'C03': 'not in reach (exit 0)', 'C04': 'UNDECIDED (exit 2): the fixpoint loop of World::run_with_limits is under contract in unit engine (closure of the final fact set under one more round), but the change calls a new helper FactSet::contains the unit has no contract for; the same defect written in place (dropping new_facts.insert) is the canary derived-fact-dropped and is rejected by run_with_limits::loop3.this', 'history': 'NOT detected (exit 0) before the fixpoint loop was un-abstracted'}),
+ ('C06-3', '/scratch/t/r2/C06-1', 'C06', 'i64::MIN / -1 (checked_div replaced by a zero test and a plain division)',
+  {'C06': 'VIOLATION datalog::expression::Binary::evaluate::ensures.div_overflow and ::call-pre[i / j]', 'C09': 'VIOLATION datalog::expression::Binary::evaluate::call-pre[i / j]'}),
+ ('C06-4', '/scratch/t/r2/C06-2', 'C06', 'all / any over a MAP with a closure parameter that is already bound (the shadowing test is skipped unless the left operand is a set or an array)',
+  {'C06': 'VIOLATION datalog::expression::Expression::evaluate::call-pre(Binary::evaluate_with_closure::requires.no_shadow)'}),
+ ('C07-3', '/scratch/t/r2/C07-1', 'C07', 'a version-0 (legacy) third-party block and the path UnverifiedBiscuit::unsafe_deprecated_deserialize(..).verify(root): the legacy external-signature scheme is selected by the block version alone',
+  {'C07': 'VIOLATION format::SerializedBiscuit::verify_inner::loop0.prefix', 'C01': 'VIOLATION format::SerializedBiscuit::verify_inner::loop0.prefix'}),
+ ('C07-4', '/scratch/t/r2/C07-2', 'C07', 'a third-party block that uses `trusting <key>`, a later first-party block introducing a new key, and a parse from bytes: the third-party key table leaks into the token table',
+  {'C07': 'VIOLATION format::SerializedBiscuit::extract_blocks::loop1.tables', 'C12': 'VIOLATION format::SerializedBiscuit::extract_blocks::loop1.tables'}),
+ ('C04-3', '/scratch/t/r2/C04-1', 'C04', 'a block n >= 1 carrying a block-level scope and a check without its own `trusting` (block trusted set built from the authority block scopes)',
+  {'C04': 'VIOLATION token::authorizer::Authorizer::authorize_inner (precondition of lemma_tset for the block-level trusted set: it is not the specification set of blocks[i + 1].scopes)'}),
+ ('C04-4', '/scratch/t/r2/C04-2', 'C04', 'a rule deriving a fact that already exists under another origin and a check / policy / query that trusts only the derived origin (derived facts skipped when present under any origin)',
+  {'C04': 'UNDECIDED (exit 2): same place as C03-4 (fixpoint loop of run_with_limits, unit engine); the change reads FactSet::inner through an iterator chain the unit cannot type', 'history': 'NOT detected (exit 0) before the fixpoint loop was un-abstracted'}),
 ]
 only = sys.argv[1:] 
 for sid, src, prop, needs, det in SEEDS:
